@@ -181,6 +181,22 @@ def o_vign(a):
     return not diff and abs(onaxis - 1.) < 1e-6, dict(mismatching_events=diff[:10], kept_fraction=frac, expected_fraction=float(numpy.minimum(1., v).mean()), on_axis=onaxis)
 
 
+def fiducial_fraction(s, roi):
+    """share of the source's solid angle that falls on the fiducial rectangle of the detector (on-axis point sources: 1; a uniform disk centred on the
+    pointing: area of disk ∩ rectangle over the area of the disk — the rectangle is centred on the disk, so the DU rotation does not matter)"""
+    from ixpeobssim.instrument import gpd, mma
+    radius = getattr(s, 'radius', None)
+    if radius is None or s.__class__.__name__ != 'xUniformDisk' or (s.ra, s.dec) != (roi.ra, roi.dec):
+        return 1.
+    R = math.tan(math.radians(radius)) * mma.FOCAL_LENGTH
+    hx, hy = gpd.GPD_DEFAULT_FIDUCIAL_HALF_SIDE_X, gpd.GPD_DEFAULT_FIDUCIAL_HALF_SIDE_Y
+    n = 1500
+    x = (numpy.arange(n) + 0.5) / n * 2 * hx - hx
+    y = (numpy.arange(n) + 0.5) / n * 2 * hy - hy
+    inside = (x[:, None] ** 2 + y[None, :] ** 2) <= R * R
+    return float(inside.mean() * 4 * hx * hy / (math.pi * R * R))
+
+
 def o_counts(a):
     """simulated files: number of rows against the Poisson mean (live fraction, GTIs), times inside GTIs"""
     import simdrive
@@ -208,7 +224,7 @@ def o_counts(a):
         cs = s.create_count_spectrum(irf_set.aeff, grid, **kwargs)
         lam = float(cs.light_curve.norm()) * (a['T'] if periodic else 1.)
         # fraction of the expected events inside the GTIs (constant sources) and inside the fiducial area (point source on axis: ~1)
-        exp = lam * sum(y - x for x, y in gtis) / a['T']
+        exp = lam * sum(y - x for x, y in gtis) / a['T'] * fiducial_fraction(s, roi)
         got = int((src == s.identifier).sum())
         if abs(got - exp) > 6.5 * math.sqrt(exp) + 0.03 * exp:
             bad.append('%s: %d events, %.1f expected from ∫∫ S·Aeff over the good time' % (s.name, got, exp))
